@@ -5,7 +5,7 @@
     ([content_merge], arbitrary). All statements hold for every odd number of sides, every
     nesting depth, both same-change settings. *)
 From Verif Require Import Base.Prelude Model.Merge Model.TreeMerge Model.TreeCase Model.C07.
-From Verif Require Import Proofs.TreeValue Proofs.TreeMerge Proofs.C07.
+From Verif Require Import Proofs.TreeValue Proofs.TreeMerge Proofs.C07 Proofs.MergeIdentities.
 Local Open Scope Z_scope.
 
 Section Statements.
@@ -58,6 +58,14 @@ Section Statements.
       [exact (base_identity_left accept content_merge a b)
       |exact (base_identity_right accept content_merge a b)].
   Qed.
+
+  (** ... also when the base is itself conflicted, of any arity (Merge::simplify cancels
+      everything that can be cancelled: Proofs/SimplifyDisjoint.v). *)
+  Theorem C07_base_identity_general : forall (x : tree) (b : list tree),
+    Nat.odd (length b) = true ->
+    merged_tree_merge accept content_merge [[x]; b; b] = [x]
+    /\ merged_tree_merge accept content_merge [b; b; [x]] = [x].
+  Proof. exact (base_identity_general accept content_merge). Qed.
 
   (** merge_no_resolve (flatten + simplify) keeps the net count of every tree, hence of
       every value at every path. *)
@@ -149,5 +157,6 @@ Print Assumptions C07_pathwise.
 Print Assumptions C07_clash.
 Print Assumptions C07_conflict_free_iff.
 Print Assumptions C07_base_identity.
+Print Assumptions C07_base_identity_general.
 Print Assumptions C07_resolve_terminates.
 Print Assumptions C07_okb_spec.
